@@ -27,9 +27,18 @@ open OmplModel OmplModel.Dubins
 
 class RSNum (α : Type) extends DNum α where
   asin : α → α
+  /-- `ZERO` of ReedsSheppStateSpace.cpp.  As coded `10 * DBL_EPSILON` (`DBL_EPSILON = 2^-52 = 5^52 / 10^52`, exactly
+  representable) — the default; a second `Float` instance (`rsFix67`) carries the value proposed as the repair of finding
+  F67 so that the check can ask what the repaired code would return. -/
+  zeroTol : α := 10 * Num.ofDec (5 ^ 52) 52
 
 instance : RSNum Float where
   asin := Float.asin
+
+/-- the `Float` run with `ZERO = 1e-12` (notes/C14-fix-F67.diff): used only by the driver's `…fix` ops -/
+@[instance_reducible] def rsFix67 : RSNum Float where
+  asin := Float.asin
+  zeroTol := 1e-12
 
 /-- `ReedsSheppPathSegmentType` -/
 inductive RSeg where
@@ -77,7 +86,7 @@ def rpi : α := Num.pi
 def rtwopi : α := 2 * Num.pi
 def rhalf : α := Num.ofDec 5 1
 /-- `ZERO = 10 * DBL_EPSILON` (`DBL_EPSILON = 2^-52 = 5^52 / 10^52`, exactly representable) -/
-def rzero : α := 10 * Num.ofDec (5 ^ 52) 52
+def rzero : α := RSNum.zeroTol
 /-- `.5 * pi` -/
 def hpi : α := rhalf * Num.pi
 
